@@ -259,7 +259,7 @@ def run_helper_recursion(chk: Check, prog: Program) -> None:
 
 def run_sticky(chk: Check, scen: List[dict], pid: str = "C10", rid: str = "R4",
                names=("parse;parse", "parse;parse;parse", "parse;clear;parse", "tokenize;parse", "tokenize;consume;parse",
-                      "parse(other);parse")) -> None:
+                      "parse(other);parse", "parse(ws-variant);parse")) -> None:
     chk.rule(f"{pid}.{rid}", "a parser that served earlier calls answers like a fresh parser (per history scenario and token "
              "sequence)", minimum=50)
     where = "mathy_core/parser.py:ExpressionParser.parse"
